@@ -65,3 +65,17 @@ func (pc *PartitionContext) VerifForeignAllocs() []string {
 }
 
 func (pc *PartitionContext) VerifCleanupExpiredApps() { pc.cleanupExpiredApps() }
+
+// VerifStopPartitionManagers ends the background goroutines (queue cleaner, expired application cleaner) of every
+// partition of this context without removing the partitions: harnesses that create many short-lived contexts call it
+// when they are done with one.
+func (cc *ClusterContext) VerifStopPartitionManagers() {
+	cc.Lock()
+	defer cc.Unlock()
+	for _, part := range cc.partitions {
+		if part.partitionManager != nil {
+			close(part.partitionManager.stopCleanExpiredApps)
+			close(part.partitionManager.stopCleanRoot)
+		}
+	}
+}
